@@ -50,7 +50,15 @@ func specFor(templates []string) string {
 	for i, t := range templates {
 		var ps []any
 		for _, p := range params(t) {
-			ps = append(ps, map[string]any{"name": p, "in": "path", "required": true, "schema": map[string]any{"type": "string"}})
+			pm := map[string]any{"name": p, "in": "path", "required": true, "schema": map[string]any{"type": "string"}}
+			// l_x / m_x: the parameter is serialized in label / matrix style
+			switch {
+			case strings.HasPrefix(p, "l_"):
+				pm["style"] = "label"
+			case strings.HasPrefix(p, "m_"):
+				pm["style"] = "matrix"
+			}
+			ps = append(ps, pm)
 		}
 		item := map[string]any{}
 		for _, m := range methodsOf(i, len(templates)) {
@@ -206,6 +214,12 @@ func main() {
 			[]string{"/f/{p}\u00e9", "/f/{p}\u65e5", "/f/{p}.z"}, []string{"/g/\u00e9", "/g/\u00e8"}, []string{"/g/\u00e9", "/g/{p}"}, []string{"/\u00e9/{p}"}, []string{"/\u65e5\u672c/{p}/z"},
 			[]string{"/k/{p}\u00e9{q}"}, []string{"/k/{p}\u00e9{q}", "/k/{p}-{q}"}, []string{"/m/{p}\u00e9/x", "/m/{p}/y"},
 		)
+		// parameters in label and matrix style, alone, behind static text and directly behind another
+		// parameter (two parameters in a row have no text between them whatever their style: such a
+		// template must be refused, and whatever is accepted has to compile; the styled ones are not
+		// driven - the reference matcher knows simple parameters only)
+		sets = append(sets, []string{"/s/{l_p}"}, []string{"/s/{m_p}"}, []string{"/s/a{l_p}", "/s/{q}"}, []string{"/s/{p}{l_q}"}, []string{"/s/{p}{m_q}"}, []string{"/s/{l_p}{q}"}, []string{"/s/{m_p}{l_q}"},
+			[]string{"/s/{p}{l_q}", "/s/{p}/raw"}, []string{"/s/{p}.{l_q}"}, []string{"/s/{l_p}/{m_q}"})
 		// static text behind a parameter that starts with a hex digit (the escapes of an argument are
 		// made of hex digits)
 		sets = append(sets, []string{"/x/{p}2"}, []string{"/x/{p}0/z"}, []string{"/x/{p}C"}, []string{"/x/{p}2", "/x/{p}-y"}, []string{"/x/{p}9{q}"})
@@ -228,7 +242,7 @@ func main() {
 	if only := os.Getenv("VERIF_C05_ONLY"); only != "" { // development aid: only the sets with non-ASCII text / hex-digit tails
 		var keep [][]string
 		for _, s := range sets {
-			if only == "hextail" && strings.HasPrefix(s[0], "/x/{p}") {
+			if only == "hextail" && (strings.HasPrefix(s[0], "/x/{p}") || strings.HasPrefix(s[0], "/s/")) {
 				keep = append(keep, s)
 			}
 			if only == "nonascii" && strings.IndexFunc(strings.Join(s, ""), func(r rune) bool { return r >= 0x80 }) >= 0 {
